@@ -440,6 +440,21 @@ impl Default for SymbolTable {
     }
 }
 
+/// Verification hooks (cargo feature `oq3_verif`). Not part of the normal build.
+#[cfg(feature = "oq3_verif")]
+impl SymbolTable {
+    /// Public wrapper of the crate-private `enter_scope`, so that operation histories
+    /// can be driven through the API without source text.
+    pub fn verif_enter_scope(&mut self, scope_type: ScopeType) {
+        self.enter_scope(scope_type)
+    }
+
+    /// Number of currently open scopes (1 = only the global scope).
+    pub fn verif_scope_depth(&self) -> usize {
+        self.number_of_scopes()
+    }
+}
+
 use std::ops::Index;
 impl Index<&SymbolId> for SymbolTable {
     type Output = Symbol;
